@@ -13,7 +13,7 @@ import ast
 import itertools
 
 from sa import AnalysisError
-from sa.astutil import unparse
+from sa.astutil import unparse, in_block
 from sa.consts import fold, NotConst
 from sa.loader import walk_shallow
 from sa import rx
@@ -418,6 +418,14 @@ def rule_strip(ctx):
             problems.append("matched groups are not stripped of surrounding whitespace")
         if not unit_ok and not any("dots are stripped" in x for x in problems):
             problems.append("the trailing-dot rule for units (issue #36) is missing")
+    # nothing rewrites a field after the groups were taken over
+    if gl is not None:
+        for s_ in walk_shallow(fi.node):
+            if isinstance(s_, (ast.Assign, ast.AugAssign)) and not in_block(s_, [gl]) and s_.lineno > gl.lineno:
+                for t in (s_.targets if isinstance(s_, ast.Assign) else [s_.target]):
+                    if isinstance(t, ast.Subscript) and isinstance(t.slice, ast.Constant) and t.slice.value in ("name", "unit", "value", "descr"):
+                        problems.append("the field %r is rewritten after matching (`%s`): the text of a header line is no longer handed on "
+                                        "as written" % (t.slice.value, unparse(s_)[:70]))
     ctx.check(not problems, "HDR.STRIP", site, fi, fi.node,
               "patterns tried in order with re.match, first hit wins; every group is strip()ped; a unit ending in '.' "
               "loses only leading/trailing dots", "; ".join(dict.fromkeys(problems)))
